@@ -93,6 +93,10 @@ func generate(r *gen.Rand, i int) Input {
 }
 
 func generate0(r *gen.Rand, i int) Input {
+	if r.Chance(1, 30) {
+		sh := genShape(r)
+		return Input{Op: "shape", Shape: &sh}
+	}
 	switch r.Weighted([]int{52, 8, 8, 22, 10}) {
 	case 4:
 		g := genGoArg(r)
@@ -173,6 +177,8 @@ func checkOne(c *run.Ctx, in Input) {
 			nontrivial = k.checkRet(*in.Ret)
 		case "hist":
 			nontrivial = k.checkHist(*in.Hist)
+		case "shape":
+			nontrivial = k.checkShape(*in.Shape)
 		}
 	})
 	if pv != nil {
